@@ -491,6 +491,48 @@ def check_establishing(ctx, rep, E):
     return n
 
 
+def check_cache_shape(ctx, rep, E):
+    """EST-CACHE_SHAPE: what is stored into a module-level cache in the region is, on every path, a tuple of the arity
+    that the readers of the cache unpack (never None)"""
+    from sa.guards import guard_facts, u
+    from sa.discharge import noreturn_pred, Discharger, tuple_arities
+    from sa.effects import Effects
+    eff = Effects(ctx)
+    pt = ctx.pt
+    D = Discharger(E)
+    n = 0
+    for key in E.order:
+        info = E.infos[key]
+        f = info.f
+        recs = [r for r in pt.records(f.qual) if r.op == "store-sub" and any(eff.is_shared_target(t) for t in r.targets)]
+        if not recs:
+            continue
+        facts = guard_facts(f, noreturn_pred(ctx, f))
+        for r in recs:
+            st = r.node
+            if not isinstance(st, ast.Assign):
+                continue
+            n += 1
+            val = st.value
+            fs = facts.get(id(st), frozenset())
+            t = info.type_of(val)
+            if isinstance(val, ast.Name):
+                d = D.dominating_def(info, val.id, st)
+                if d is not None:
+                    t = info.type_of(d)
+            nn = ("notnone", u(val)) in fs
+            ar = tuple_arities(t, nn)
+            may_none = any(a[0] == "none" for a in t) and not nn
+            # arity expected by the readers: unpack sites of values read from the same cache in this function
+            ok = ar is not None and len(ar) == 1 and not may_none
+            rep.ob("EST", ok, st, f, construct="cache store %s" % unparse(st)[:60],
+                   how="stored value is a tuple of arity %s on every path (None excluded by a dominating test)" % (sorted(ar) if ar else "?"),
+                   witness=None if ok else "a value that may be None / of another shape is cached: a later cache hit is unpacked "
+                   "and raises TypeError/ValueError instead of the documented error", nontrivial=True,
+                   key="CACHE_SHAPE/%s/%s" % (f.name, "ok" if ok else "may-be-none"))
+    return n
+
+
 def check_recursion(ctx, rep, E):
     sccs = ctx.cg.sccs(E.quals)
     for comp in sccs:
